@@ -6,7 +6,7 @@
 From Coq Require Import Lia.
 From InvokeVerif Require Import Common.Tree Common.StrUtil Model.MergeModel Model.EnvModel
      Model.ConfigModel Spec.C03Spec Proofs.ListFacts Proofs.TreeFacts Proofs.C03_merge
-     Proofs.C03_levels Proofs.C03_order Proofs.C03_script Corr.C03Corr.
+     Proofs.C03_levels Proofs.C03_order Proofs.C03_script Corr.C03Corr Proofs.C03_envclause.
 
 Local Opaque try_suffixes mem.
 
@@ -732,4 +732,225 @@ Proof.
                            | LocalOnly l => (set_cache c2 l, o2) | _ => X end = X)
        by (intros X; destruct f2; reflexivity);
      rewrite E; clear E; destruct o2; reflexivity).
+Qed.
+
+(** * The view is up to date for settled scripts *)
+Lemma found_after fs c o :
+  script_op o = true -> is_err_out (snd (step fs c o)) = false ->
+  let c1 := fst (step fs c o) in
+  (isPrj (undefer o) = false -> isSetP o = false -> c_proj_found c1 = c_proj_found c) /\
+  (isRt (undefer o) = false -> isSetR o = false -> c_rt_found c1 = c_rt_found c) /\
+  (isSetP o = true -> c_proj_found c1 = FNone) /\
+  (isSetR o = true -> c_rt_found c1 = FNone).
+Proof.
+  intros Ho Hne. cbv zeta. destruct (step_ok_script fs c o Ho Hne) as [_ S].
+  assert (E1 : c_proj_found (fst (step fs c o)) = fst (fst (prj3 (strip (fst (step fs c o)))))) by reflexivity.
+  assert (E2 : c_rt_found (fst (step fs c o)) = fst (rt2 (strip (fst (step fs c o))))) by reflexivity.
+  rewrite E1, E2, S. clear E1 E2 S.
+  fields fs (strip c) o Ho. rewrite Hp3, Hr2.
+  repeat split; intros; destruct o; try discriminate; reflexivity.
+Qed.
+
+Lemma step_setP fs c l :
+  step fs c (SetProjectLocation l) = (set_project (set_proj_loc c l) (Node []) FNone None, ONone).
+Proof. reflexivity. Qed.
+Lemma step_setR fs c p :
+  step fs c (SetRuntimePath p) = (set_runtime (set_rt_path c p) (Node []) FNone, ONone).
+Proof. reflexivity. Qed.
+
+Lemma cache_ok_setP c l : c_proj_found c = FNone -> cache_ok c ->
+  cache_ok (set_project (set_proj_loc c l) (Node []) FNone None).
+Proof.
+  unfold cache_ok, merge, merge_levels, levels_of, level_list. destruct c; simpl. intros ->. auto.
+Qed.
+Lemma cache_ok_setR c p : c_rt_found c = FNone -> cache_ok c ->
+  cache_ok (set_runtime (set_rt_path c p) (Node []) FNone).
+Proof.
+  unfold cache_ok, merge, merge_levels, levels_of, level_list. destruct c; simpl. intros ->. auto.
+Qed.
+
+Lemma sync_run fs : forall ops c c' lp lr,
+  cache_ok c -> (lp = false -> c_proj_found c = FNone) -> (lr = false -> c_rt_found c = FNone) ->
+  forallb script_op ops = true -> existsb is_deferred ops = false -> repoints lp lr ops = false ->
+  exec fs c ops = Ok c' -> cache_ok c'.
+Proof.
+  induction ops as [|o r IH]; intros c c' lp lr Hc Hp Hr HF Hd Hrp H.
+  - inversion H; subst. exact Hc.
+  - simpl in HF. apply andb_true_iff in HF as [Ho HF']. simpl in Hd. apply orb_false_iff in Hd as [Hdo Hd'].
+    rewrite exec_cons in H. destruct (is_err_out (snd (step fs c o))) eqn:Ee;
+      [destruct (snd (step fs c o)); discriminate|].
+    destruct (found_after fs c o Ho Ee) as [F1 [F2 [F3 F4]]]. cbv zeta in *.
+    destruct (is_set_op o) eqn:Eset.
+    + destruct o; try discriminate; cbn [repoints undefer] in Hrp; apply orb_false_iff in Hrp as [Hl Hrp'].
+      * refine (IH _ c' false lr _ _ _ HF' Hd' Hrp' H).
+        -- rewrite step_setP. cbn [fst]. apply cache_ok_setP; auto.
+        -- intros _. apply F3. reflexivity.
+        -- intros E. rewrite F2 by reflexivity. auto.
+      * refine (IH _ c' lp false _ _ _ HF' Hd' Hrp' H).
+        -- rewrite step_setR. cbn [fst]. apply cache_ok_setR; auto.
+        -- intros E. rewrite F1 by reflexivity. auto.
+        -- intros _. apply F4. reflexivity.
+    + assert (Hpl : is_plain_load o = true).
+      { unfold is_plain_load. unfold script_op in Ho. rewrite Eset, orb_false_r in Ho. rewrite Ho, Hdo. reflexivity. }
+      pose proof (cache_ok_step_load fs c o Hpl Hc Ee) as Hc1.
+      destruct o; try discriminate; cbn [repoints undefer] in Hrp.
+      all: try (refine (IH _ c' lp lr Hc1 _ _ HF' Hd' Hrp H);
+                [intros E; rewrite F1 by reflexivity; auto | intros E; rewrite F2 by reflexivity; auto]).
+      * refine (IH _ c' true lr Hc1 _ _ HF' Hd' Hrp H); [discriminate|].
+        intros E; rewrite F2 by reflexivity; auto.
+      * refine (IH _ c' lp true Hc1 _ _ HF' Hd' Hrp H); [|discriminate].
+        intros E; rewrite F1 by reflexivity; auto.
+Qed.
+
+Lemma settled_cache fs c0 done c :
+  cache_ok c0 -> c_proj_found c0 = FNone -> c_rt_found c0 = FNone ->
+  forallb script_op done = true -> settled done = true -> exec fs c0 done = Ok c -> cache_ok c.
+Proof.
+  intros Hc Hp Hr HF Hs H. unfold settled in Hs. apply orb_true_iff in Hs as [Hs|Hs].
+  - apply negb_true_iff, orb_false_iff in Hs as [Hd Hrp].
+    apply (sync_run fs done c0 c false false); auto.
+  - destruct done as [|x done'] using rev_ind; [inversion H; subst; exact Hc|]. clear IHdone'.
+    rewrite last_last in Hs. rewrite forallb_snoc in HF. apply andb_true_iff in HF as [_ Hx].
+    destruct x; try discriminate.
+    rewrite exec_app in H. destruct (exec fs c0 done') as [cb|]; [|discriminate].
+    cbn [exec] in H. rewrite step_merge_eq in H.
+    pose proof (cache_ok_remerge cb ONone) as Hk. destruct (remerge cb ONone) as [c1 out].
+    destruct out; try discriminate; inversion H; subst; apply Hk; reflexivity.
+Qed.
+
+Lemma start_ok_facts fs i c0 : start fs i = Ok c0 ->
+  strip c0 = apply_script fs (b0 i) (init_ops i) /\ no_bad fs (b0 i) (init_ops i) = true /\
+  cache_ok c0 /\ c_proj_found c0 = FNone /\ c_rt_found c0 = FNone.
+Proof.
+  rewrite start_eq. destruct (exec fs (b0 i) (init_ops i)) as [c|] eqn:E; [|discriminate].
+  destruct (merge c) as [d|] eqn:Em; [|discriminate]. intros H; inversion H; subst c0. clear H.
+  destruct (exec_script fs _ _ _ (init_ops_script i) E) as [S NB]. change (strip (b0 i)) with (b0 i) in *.
+  rewrite strip_set_cache. split; [exact S|]. split; [exact NB|]. split.
+  - unfold cache_ok. rewrite merge_set_cache. destruct c; exact Em.
+  - assert (E1 : c_proj_found (set_cache c d) = fst (fst (prj3 (strip c)))) by reflexivity.
+    assert (E2 : c_rt_found (set_cache c d) = fst (rt2 (strip c))) by reflexivity.
+    rewrite E1, E2, S, (fold_prj fs _ _ (init_ops_script i)), (fold_rt fs _ _ (init_ops_script i)).
+    unfold init_ops. destruct (i_lazy i); split; reflexivity.
+Qed.
+
+Lemma merge_model_levels c : c_dels c = [] -> merge c = merge_all (model_levels c) [].
+Proof.
+  intros Hd. unfold merge, merge_levels. rewrite <- model_levels_eq, merge_all_norm, Hd.
+  destruct (merge_all (levels_of c) []); reflexivity.
+Qed.
+
+Lemma norm_node t : is_node (norm t) = true.
+Proof. destruct t; reflexivity. Qed.
+
+Lemma levels8_nodes fs i ops : forallb is_node (levels8 (supplied_of fs i ops)) = true.
+Proof.
+  assert (L : forall b loc, is_node (fst (fst (located fs b loc))) = true).
+  { intros b loc. unfold located. destruct b; [|reflexivity]. destruct loc as [l|]; [|reflexivity].
+    destruct (first_existing fs l) as [[s [t|]]|]; try reflexivity. apply norm_node. }
+  unfold levels8, below_env, above_env, supplied_of. cbn [app forallb s_defaults s_collection s_system
+    s_user s_project s_runtime s_overrides].
+  rewrite !norm_node, !L. cbn [andb].
+  match goal with |- is_node (fst ?x) && true = true => assert (R : is_node (fst x) = true) end.
+  { destruct (has_op _ _); [|reflexivity]. destruct (last_of _ _ (i_rt i)) as [[stem sfx]|]; [|reflexivity].
+    destruct (negb (mem sfx doc_suffixes)); [reflexivity|].
+    destruct (fs_get fs stem sfx) as [[t|]|]; try reflexivity. apply norm_node. }
+  rewrite R. reflexivity.
+Qed.
+
+Lemma supplied_env_snoc fs i body env :
+  let S := supplied_of fs i (body ++ [LoadShellEnv env]) in
+  let Sb := supplied_of fs i body in
+  levels8 S = levels8 Sb /\ s_unreadable S = s_unreadable Sb /\ s_sfx S = s_sfx Sb /\
+  s_env S = Some env.
+Proof.
+  cbv zeta. unfold supplied_of, has_op. rewrite map_app. cbn [map undefer].
+  rewrite !last_of_snoc, !after_last_snoc. cbv beta iota. rewrite !existsb_app.
+  cbn [existsb orb]. rewrite !orb_false_r. repeat split; reflexivity.
+Qed.
+
+(** * The state after a clean run of script calls *)
+Definition at_state (fs : fsys) (i : init_args) (done : list op) (c : cfg) : Prop :=
+  strip c = apply_script fs (b0 i) (init_ops i ++ done) /\
+  no_bad fs (b0 i) (init_ops i ++ done) = true /\ forallb script_op done = true.
+
+Lemma reach_state fs i c0 done c :
+  start fs i = Ok c0 -> forallb script_op done = true -> exec fs c0 done = Ok c ->
+  at_state fs i done c.
+Proof.
+  intros Hs HF H. destruct (start_ok_facts fs i c0 Hs) as [S0 [NB0 _]].
+  destruct (exec_script fs done c0 c HF H) as [S NB]. rewrite S0 in S, NB.
+  unfold at_state. rewrite apply_script_app, no_bad_app, NB0, NB. auto.
+Qed.
+
+Definition tc_ok (S : supplied) : bool := levels_tc (levels8 S) && forallb wf (levels8 S).
+
+Lemma at_state_levels fs i done c : at_state fs i done c ->
+  let S := supplied_of fs i done in
+  model_levels c = levels9 S (Node []) ++ [Node []] /\
+  s_unreadable S = false /\
+  sfx_ok (s_sfx S) [c_sys_sfx c; c_user_sfx c; c_proj_sfx c] = true /\
+  s_env S = None /\ c_env c = Node [] /\ c_dels c = [] /\ c_env_prefix c = "INVOKE_".
+Proof.
+  intros [Hs [Hnb HF]]. pose proof (corr_levels fs i done HF Hnb) as H. cbv zeta in *.
+  rewrite <- Hs in H. exact H.
+Qed.
+
+Lemma at_state_merge fs i done c : at_state fs i done c ->
+  let S := supplied_of fs i done in
+  tc_ok S = true ->
+  exists d0, merge c = Ok d0 /\
+             merge_all (below_env S ++ Node [] :: above_env S ++ [Node []]) [] = Ok d0 /\
+             wf (Node d0) = true /\
+             (forall q, q <> [] -> shape_at q (Node d0) = oracle q (levels8 S)) /\
+             view_ok (levels9 S (Node [])) (Node d0) = true.
+Proof.
+  intros Hat. cbv zeta. intros Htc. unfold tc_ok in Htc. apply andb_true_iff in Htc as [Htc Hwf].
+  destruct (at_state_levels fs i done c Hat) as [Hml [_ [_ [_ [_ [Hdl _]]]]]]. cbv zeta in Hml.
+  set (S := supplied_of fs i done) in *.
+  assert (Hne : below_env S <> []) by discriminate.
+  destruct (pre_merge (below_env S) (above_env S) Hne Hwf (levels8_nodes fs i done) Htc)
+    as [d0 [E0 [W0 [S0 V0]]]].
+  exists d0. rewrite (merge_model_levels c Hdl), Hml. repeat split; assumption.
+Qed.
+
+Lemma set_env_same c t : c_env c = t -> set_env c t = c.
+Proof. destruct c; simpl. intros <-. reflexivity. Qed.
+
+Lemma model_levels_set_env c e d0 :
+  model_levels (set_env (set_cache c d0) e) =
+  firstn 5 (model_levels c) ++ norm e :: skipn 6 (model_levels c).
+Proof. reflexivity. Qed.
+
+(** load_shell_env() after a clean run of script calls *)
+Lemma env_step fs i done c env c' out : at_state fs i done c ->
+  let S := supplied_of fs i done in
+  tc_ok S = true ->
+  step fs c (LoadShellEnv env) = (c', out) ->
+  match out with
+  | OErr e => env_outcome_ok "INVOKE_" env (levels8 S) (Err e) = true
+  | _ => env_outcome_ok "INVOKE_" env (levels8 S) (Ok (c_env c')) = true /\
+         view_ok (levels9 S (c_env c')) (Node (c_cache c')) = true /\
+         [c_sys_sfx c'; c_user_sfx c'; c_proj_sfx c'] = [c_sys_sfx c; c_user_sfx c; c_proj_sfx c]
+  end.
+Proof.
+  intros Hat. cbv zeta. intros Htc Hstep.
+  destruct (at_state_levels fs i done c Hat) as [Hml [_ [_ [_ [He [Hdl Hpf]]]]]]. cbv zeta in Hml.
+  destruct (at_state_merge fs i done c Hat Htc) as [d0 [Em [E0 [W0 [S0 _]]]]].
+  set (S := supplied_of fs i done) in *.
+  pose proof Htc as Htc'. unfold tc_ok in Htc'. apply andb_true_iff in Htc' as [Htc' Hwf].
+  assert (Hne : below_env S <> []) by discriminate.
+  rewrite step_env_eq, (set_env_same c _ He) in Hstep. unfold remerge at 1 in Hstep. rewrite Em in Hstep.
+  change (c_cache (set_cache c d0)) with d0 in Hstep.
+  change (c_env_prefix (set_cache c d0)) with (c_env_prefix c) in Hstep. rewrite Hpf in Hstep.
+  pose proof (env_clause (below_env S) (above_env S) Hne Hwf (levels8_nodes fs i done) Htc' d0
+                         "INVOKE_" env W0 S0) as Hclause.
+  destruct (load (Node d0) "INVOKE_" env) as [d|e] eqn:El.
+  - destruct (post_merge (below_env S) (above_env S) Hne Hwf (levels8_nodes fs i done) Htc' d0
+                         "INVOKE_" env d E0 El) as [d1 [E1 V1]].
+    assert (Em1 : merge (set_env (set_cache c d0) (Node d)) = Ok d1).
+    { rewrite merge_model_levels by exact Hdl. rewrite <- E1. f_equal.
+      rewrite model_levels_set_env, Hml. reflexivity. }
+    unfold remerge in Hstep. rewrite Em1 in Hstep. inversion Hstep; subst c' out. clear Hstep.
+    cbn [c_env c_cache set_cache set_env]. split; [exact Hclause|]. split; [exact V1 | reflexivity].
+  - inversion Hstep; subst c' out. exact Hclause.
 Qed.
